@@ -87,6 +87,37 @@ fn main() {
             }
         }
         "impl" => {
+            // Every case runs on a worker thread and the main thread waits with a time-out: a call of the library that
+            // does not return (a retry loop that never ends, a deadlock) is reported as result `hang` with an oracle
+            // line instead of stalling the whole check. A stuck thread cannot be killed; it is abandoned, a new
+            // process ends after reporting it (check.py starts a fresh process for the cases behind it).
+            let watchdog = std::time::Duration::from_millis(
+                std::env::var("DDSV_WATCHDOG_MS").ok().and_then(|s| s.parse().ok()).unwrap_or(60_000u64),
+            );
+            type Res = std::thread::Result<(String, Vec<String>)>;
+            let spawn = |prop: String| {
+                let (tx, wrx) = std::sync::mpsc::channel::<String>();
+                let (wtx, rx) = std::sync::mpsc::channel::<Res>();
+                std::thread::Builder::new()
+                    .name("case-worker".into())
+                    .stack_size(64 << 20)
+                    .spawn(move || {
+                        for l in wrx {
+                            let pr = prop.clone();
+                            let r = std::panic::catch_unwind(move || match prop_run(&pr, &l) {
+                                Some(r) => r,
+                                None => ("bad-case".to_string(), vec![]),
+                            });
+                            if wtx.send(r).is_err() {
+                                break;
+                            }
+                        }
+                    })
+                    .expect("spawn case worker");
+                (tx, rx)
+            };
+            let mut worker = spawn(args[2].clone());
+            let mut hangs = 0u32;
             let stdin = std::io::stdin();
             for (n, line) in stdin.lock().lines().enumerate() {
                 let line = line.unwrap();
@@ -94,12 +125,29 @@ fn main() {
                 if line.is_empty() {
                     continue;
                 }
-                let l = line.to_string();
-                let pr = args[2].clone();
-                let r = std::panic::catch_unwind(move || match prop_run(&pr, &l) {
-                    Some(r) => r,
-                    None => ("bad-case".to_string(), vec![]),
-                });
+                let r: Res = if worker.0.send(line.to_string()).is_err() {
+                    worker = spawn(args[2].clone());
+                    Ok(("worker-died".to_string(), vec!["abort: the worker thread died".to_string()]))
+                } else {
+                    match worker.1.recv_timeout(watchdog) {
+                        Ok(r) => r,
+                        Err(std::sync::mpsc::RecvTimeoutError::Timeout) => {
+                            hangs += 1;
+                            writeln!(out, "R {n} hang").unwrap();
+                            writeln!(out, "O {n} hang: the call did not return within {} ms", watchdog.as_millis()).unwrap();
+                            out.flush().unwrap();
+                            // the stuck thread keeps spinning: do not let it eat the machine — end the process, check.py
+                            // starts a fresh one for the cases behind this one
+                            let _ = hangs;
+                            eprintln!("watchdog: hang, ending the process");
+                            std::process::exit(86);
+                        }
+                        Err(std::sync::mpsc::RecvTimeoutError::Disconnected) => {
+                            worker = spawn(args[2].clone());
+                            Ok(("worker-died".to_string(), vec!["abort: the worker thread died".to_string()]))
+                        }
+                    }
+                };
                 match r {
                     Ok((res, oracle)) => {
                         writeln!(out, "R {n} {res}").unwrap();
